@@ -1,6 +1,7 @@
 """Grid functions, projections, integrals, multiplication operator (C13) — symbolic kernels and role forwarding."""
 
 import ast
+import re
 
 from . import assemblers as A
 from . import roles, symex
@@ -156,12 +157,69 @@ def project_vectorized(ctx):
             "points/normals/domain indices are not stored at slot npoints*position + q for the q-th point of the position-th support element (normals times normal multiplier)")
     # scalar (non-vectorised) projection: same accumulation statement, affine point map by barycentric formula
     fn3 = m.fn("_project_function")
-    s = unparse(fn3).replace(" ", "")
-    bary = ("(1.0-points[0]-points[1])*grid_data.vertices[j,grid_data.elements[0,index]]+points[0]*grid_data.vertices[j,grid_data.elements[1,index]]+points[1]*grid_data.vertices[j,grid_data.elements[2,index]]" in s)
-    acc = ("projections[local2global[index,local_fun_index]]+=_np.sum(_np.sum(element_vals[:,local_fun_index,:]*fvalues*weights,axis=0))*grid_data.integration_elements[index]" in s)
-    call = "fun(point,grid_data.normals[index]*normal_multipliers[index],grid_data.domain_indices[index],fun_result,function_parameters)" in s and "fvalues[:,j]=fun_result" in s and "point=global_points[:,j]" in s
-    r.check(bary and acc and call, "_project_function", GF, fn3.name, fn3.lineno, "scalar projection kernel shape",
-            "point map / callable arguments / accumulation statement of _project_function changed shape (bary=%s acc=%s call=%s)" % (bary, acc, call))
+    ok3, why3 = _scalar_projection_shape(fn3)
+    r.check(ok3, "_project_function", GF, fn3.name, fn3.lineno, "scalar projection kernel shape", why3)
+
+
+def _scalar_projection_shape(fn):
+    """_project_function: x_q = affine image of the reference points on element E, f_q = fun(x_q, n_E * nm_E, dom_E),
+    projections[l2g[E, f]] += sum_{d,q} B_E[d, f, q] f[d, q] w[q] * J_E  for every support element E."""
+    defs = roles.Defs(fn)
+    P = dict(zip(("FUN", "G", "SUP", "L2G", "LM", "NM", "EV", "SE", "PTS", "W", "CD", "PROJ", "FP"), arg_names(fn)))
+    if len(P) != 13:
+        return False, "unexpected signature"
+    S = roles.stores(fn.body, defs, lv=False)
+    acc = [s for s in S if s.op == "Add=" and isinstance(s.tnode, ast.Subscript) and unparse(s.tnode.value) == P["PROJ"]]
+    if len(acc) != 1 or len(acc[0].loops) != 2 or acc[0].guards:
+        return False, "no single unguarded `projections[...] += ...` inside (element loop, local function loop)"
+    a = acc[0]
+    lE, lF = a.loops
+    if not (isinstance(lE.target, ast.Name) and isinstance(lF.target, ast.Name)) or roles.canon(lE.iter, defs) != P["SUP"]:
+        return False, "outer loop does not run over the support elements"
+    E, F = lE.target.id, lF.target.id
+    ex = lambda src, line, **kw: roles.expect(src, defs, line, lv=False, E=E, F=F, **dict(P, **kw))
+    B = "EV(E, SE, PTS, G, LM, NM)"
+    if roles.canon(lF.iter, defs).replace(" ", "") not in (ex("range(%s.shape[1])" % B, lF.lineno),):
+        return False, "the local-function loop does not cover every shape function of the evaluated basis"
+    calls = [s for s in S if s.op == "call" and isinstance(s.vnode.func, ast.Name) and s.vnode.func.id == P["FUN"]]
+    if len(calls) != 1 or len(calls[0].loops) != 2 or calls[0].loops[0] is not lE or len(calls[0].vnode.args) != 5:
+        return False, "the user callable is not called once per (element, quadrature point) with 5 arguments"
+    c = calls[0]
+    Q = c.loops[1].target.id if isinstance(c.loops[1].target, ast.Name) else None
+    out = c.vnode.args[3]
+    if Q is None or not isinstance(out, ast.Name) or roles.canon(c.loops[1].iter, defs).replace(" ", "") != ex("range(PTS.shape[1])", c.node.lineno):
+        return False, "the quadrature-point loop does not run over range(points.shape[1])"
+    # the point passed to the callable is column Q of the mapped points
+    pt = roles.canon(c.vnode.args[0], defs).replace(" ", "")
+    m_ = re.fullmatch(r"(\w+)\[\(:,%s\)\]" % re.escape(Q), pt)
+    if not m_:
+        return False, "the callable receives `%s`, not column q of the mapped quadrature points" % pt[:60]
+    GP = m_.group(1)
+    out_c = roles.canon(out, defs).replace(" ", "")
+    want_args = [ex("G.normals[E] * NM[E]", c.node.lineno), ex("G.domain_indices[E]", c.node.lineno), out_c, P["FP"]]
+    got_args = [roles.canon(x, defs).replace(" ", "") for x in c.vnode.args[1:]]
+    if got_args != want_args:
+        return False, "the callable receives (normal, domain index, out, parameters) = %s" % [g[:50] for g in got_args]
+    gp = [s for s in S if isinstance(s.tnode, ast.Subscript) and unparse(s.tnode.value) == GP]
+    if len(gp) != 1 or len(gp[0].loops) != 2 or gp[0].loops[0] is not lE or not isinstance(gp[0].loops[1].target, ast.Name):
+        return False, "mapped points are not filled once per element, row by row"
+    J = gp[0].loops[1].target.id
+    aff = "(1.0 - PTS[0] - PTS[1]) * G.vertices[J, G.elements[0, E]] + PTS[0] * G.vertices[J, G.elements[1, E]] + PTS[1] * G.vertices[J, G.elements[2, E]]"
+    if gp[0].target != ex("GP[J]", gp[0].node.lineno, GP=GP, J=J) or gp[0].value != ex(aff, gp[0].node.lineno, J=J) or roles.canon(gp[0].loops[1].iter, defs) != "range(3)":
+        return False, "the global points are not the affine image (1-x-y) v0 + x v1 + y v2 of the reference points on the element's own vertices"
+    fv = [s for s in S if s.op == "=" and isinstance(s.vnode, ast.Name) and s.vnode.id == out.id and isinstance(s.tnode, ast.Subscript) and s.loops == c.loops and s.node.lineno > c.node.lineno]
+    if len(fv) != 1 or not isinstance(fv[0].tnode.value, ast.Name) or fv[0].target != ex("FV[:, Q]", fv[0].node.lineno, FV=fv[0].tnode.value.id, Q=Q):
+        return False, "the callable's result is not stored as column q of the function values after the call"
+    FV = fv[0].tnode.value.id
+    if a.target != ex("PROJ[L2G[E, F]]", a.node.lineno):
+        return False, "projections are scattered to `%s`, not to local2global[element, local function]" % a.target[:70]
+    want = ex("_np.sum(_np.sum(%s[:, F, :] * FV * W, axis=0)) * G.integration_elements[E]" % B, a.node.lineno, FV=FV)
+    alts = {want, ex("_np.sum(%s[:, F, :] * FV * W) * G.integration_elements[E]" % B, a.node.lineno, FV=FV)}
+    if a.value not in alts:
+        return False, "accumulated term is `%s`, not sum_{d,q} B[d, f, q] * f[d, q] * w[q] * J[element]" % a.value[:160]
+    if not (a.node.lineno > fv[0].node.lineno):
+        return False, "accumulation happens before the function values are computed"
+    return True, ""
 
 
 FORWARD = {
@@ -221,27 +279,116 @@ def evaluate_rules(ctx):
     defs = roles.Defs(fn)
     ret = [s for s in fn.body if isinstance(s, ast.Return)][0]
     got = roles.canon(ret.value, defs).replace(" ", "")
-    want = roles.canon_text("_np.tensordot(self.space.evaluate(element_index, local_coordinates), self.grid_coefficients[self.space.local2global[element_index]], axes=([1], [0]))").replace(" ", "")
+    pe = arg_names(fn)
+    want = roles.expect("_np.tensordot(self.space.evaluate(E, X), self.grid_coefficients[self.space.local2global[E]], axes=([1], [0]))", defs, ret.lineno, lv=False, E=pe[1], X=pe[2])
     r.check(got == want, "GridFunction.evaluate", GF, fn.name, fn.lineno, "evaluate returns " + got[:120], "evaluate returns `%s`" % got)
-    from . import bary
     fc = m.fn("GridFunction.evaluate_on_element_centers")
     lc = None
-    for st in fc.body:
-        if isinstance(st, ast.Assign) and unparse(st.targets[0]) == "local_coordinates":
-            lc = bary.frac_table(st.value)
     from fractions import Fraction as F
-    src = unparse(fc).replace(" ", "")
-    okc = lc == [[F(1, 3)], [F(1, 3)]] and "forindexinself.space.support_elements:" in src and "values[:,index]=local_values.flat" in src and "local_values=self.evaluate(index,local_coordinates)" in src
-    r.check(okc, "evaluate_on_element_centers", GF, fc.name, fc.lineno, "element centre evaluation", "element-centre values are not evaluate(element, (1/3, 1/3)) stored at the element's own column")
+    dc = roles.Defs(fc)
+    Sc = roles.stores(fc.body, dc, lv=False)
+    rc = [s for s in Sc if s.op == "return"]
+    okc, whyc = False, "does not return one local array"
+    if len(rc) == 1 and isinstance(rc[0].vnode, ast.Name):
+        VAL = rc[0].vnode.id
+        st = [s for s in Sc if isinstance(s.tnode, ast.Subscript) and unparse(s.tnode.value) == VAL]
+        whyc = "values are not filled by one store per support element"
+        if len(st) == 1 and len(st[0].loops) == 1 and isinstance(st[0].loops[0].target, ast.Name) and not st[0].guards:
+            E = st[0].loops[0].target.id
+            ln = st[0].node.lineno
+            call, lc = _evaluate_call(st[0].vnode, dc, E)
+            okc = (call and lc == [[F(1, 3)], [F(1, 3)]] and roles.canon(st[0].loops[0].iter, dc) == "self.space.support_elements"
+                   and st[0].target == roles.expect("V[:, E]", dc, ln, lv=False, V=VAL, E=E))
+            whyc = "element-centre values: reference point %s (must be (1/3, 1/3)); `%s` <- `%s` (must be values[:, element] <- evaluate(element, centre) flattened)" % (lc, st[0].target[-30:], st[0].value[:90])
+    r.check(okc, "evaluate_on_element_centers", GF, fc.name, fc.lineno, "element centre evaluation", whyc)
     fv = m.fn("GridFunction.evaluate_on_vertices")
-    lv = None
-    for st in fv.body:
-        if isinstance(st, ast.Assign) and unparse(st.targets[0]) == "local_coordinates":
-            lv = bary.frac_table(st.value)
-    sv = unparse(fv).replace(" ", "")
-    okv = (lv == [[F(0), F(1), F(0)], [F(0), F(0), F(1)]] and "index=grid.elements[i,element_index]" in sv and "element_area=grid.volumes[element_index]" in sv
-           and "values[:,index]+=local_values[:,i]*element_area" in sv and "vertex_areas[index]+=element_area" in sv and "values[:,vertex_used]/=vertex_areas[vertex_used]" in sv)
-    r.check(okv, "evaluate_on_vertices", GF, fv.name, fv.lineno, "vertex evaluation", "vertex values are not the area-weighted average of evaluate(element, reference vertex i) accumulated at grid.elements[i, element]")
+    okv, whyv = _vertex_average_shape(fv)
+    r.check(okv, "evaluate_on_vertices", GF, fv.name, fv.lineno, "vertex evaluation", whyv)
+
+
+def _evaluate_call(node, defs, E):
+    """node is self.evaluate(E, X) possibly followed by .flat / .ravel() / [:, i]: (call node, exact table of X)."""
+    from . import bary
+
+    n = node
+    if isinstance(n, ast.Name):
+        d = defs.lookup(n.id, n.lineno)
+        n = d[1] if d and d[0] == "expr" else n
+    if isinstance(n, ast.Attribute) and n.attr == "flat":
+        n = n.value
+    elif isinstance(n, ast.Call) and isinstance(n.func, ast.Attribute) and n.func.attr in ("ravel", "flatten") and not n.args:
+        n = n.func.value
+    if isinstance(n, ast.Name):
+        d = defs.lookup(n.id, n.lineno)
+        n = d[1] if d and d[0] == "expr" else n
+    if not (isinstance(n, ast.Call) and unparse(n.func) == "self.evaluate" and len(n.args) == 2 and isinstance(n.args[0], ast.Name) and n.args[0].id == E):
+        return None, None
+    x = n.args[1]
+    if isinstance(x, ast.Name):
+        d = defs.lookup(x.id, x.lineno)
+        x = d[1] if d and d[0] == "expr" else x
+    try:
+        return n, bary.frac_table(x)
+    except Exception:
+        return n, None
+
+
+def _vertex_average_shape(fv):
+    """values[:, v] = sum_{(E,i): elements[i,E]=v} evaluate(E, ref vertex i) * area_E / sum area_E  over the support."""
+    from fractions import Fraction as F
+
+    d = roles.Defs(fv)
+    S = roles.stores(fv.body, d, lv=False)
+    rets = [s for s in S if s.op == "return"]
+    if len(rets) != 1 or not isinstance(rets[0].vnode, ast.Name):
+        return False, "does not return one local array"
+    VAL = rets[0].vnode.id
+    acc = [s for s in S if s.op == "Add=" and isinstance(s.tnode, ast.Subscript) and unparse(s.tnode.value) == VAL]
+    if len(acc) != 1 or len(acc[0].loops) != 2 or acc[0].guards:
+        return False, "no single accumulation `values[:, vertex] += ...` inside (element loop, local vertex loop)"
+    a = acc[0]
+    lE, lI = a.loops
+    if not (isinstance(lE.target, ast.Name) and isinstance(lI.target, ast.Name)):
+        return False, "loop targets are not plain names"
+    E, I = lE.target.id, lI.target.id
+    ln = a.node.lineno
+    if roles.canon(lE.iter, d) != "self.space.support_elements" or roles.canon(lI.iter, d) != "range(3)":
+        return False, "loops are not (support elements, 3 local vertices)"
+    ex = lambda src, **kw: roles.expect(src, d, ln, lv=False, E=E, I=I, V=VAL, **kw)
+    vert = "self.space.grid.elements[I, E]"
+    area = "self.space.grid.volumes[E]"
+    if a.target != ex("V[:, %s]" % vert):
+        return False, "values are accumulated at `%s`, not at the global vertex grid.elements[i, element]" % a.target[-60:]
+    # value: evaluate(E, ref)[:, I] * area
+    v = a.vnode
+    fac = None
+    if isinstance(v, ast.BinOp) and isinstance(v.op, ast.Mult):
+        for x, y in ((v.left, v.right), (v.right, v.left)):
+            if roles.canon(y, d).replace(" ", "") == ex(area):
+                fac = x
+    if fac is None:
+        return False, "accumulated term `%s` is not weighted by the element's area" % unparse(v)[:70]
+    if not (isinstance(fac, ast.Subscript) and isinstance(fac.slice, ast.Tuple) and len(fac.slice.elts) == 2 and isinstance(fac.slice.elts[0], ast.Slice)
+            and isinstance(fac.slice.elts[1], ast.Name) and fac.slice.elts[1].id == I):
+        return False, "accumulated term does not take column i of the element's vertex values"
+    call, tab = _evaluate_call(fac.value, d, E)
+    if call is None or tab != [[F(0), F(1), F(0)], [F(0), F(0), F(1)]]:
+        return False, "vertex values are not evaluate(element, reference vertices (0,0),(1,0),(0,1)) (points %s)" % (tab,)
+    wts = [s for s in S if s.op == "Add=" and isinstance(s.tnode, ast.Subscript) and s.loops == a.loops and not s.guards and s.value == ex(area) and s is not a]
+    if len(wts) != 1 or not isinstance(wts[0].tnode.value, ast.Name) or wts[0].target != ex("A[%s]" % vert, A=wts[0].tnode.value.id):
+        return False, "no companion accumulation of the element area at the same vertex"
+    A_ = wts[0].tnode.value.id
+    div = [s for s in S if s.op == "Div=" and isinstance(s.tnode, ast.Subscript) and unparse(s.tnode.value) == VAL and not s.loops]
+    if len(div) != 1 or div[0].node.lineno < lE.lineno:
+        return False, "values are not divided by the accumulated areas after the loop"
+    msk = div[0].tnode.slice.elts[1] if isinstance(div[0].tnode.slice, ast.Tuple) and len(div[0].tnode.slice.elts) == 2 else None
+    if msk is None or div[0].value != roles.expect("A[M]", d, div[0].node.lineno, lv=False, A=A_, M=msk):
+        return False, "the final division is not values[:, m] /= areas[m] on one mask m"
+    if isinstance(msk, ast.Name):
+        marks = [s for s in S if isinstance(s.tnode, ast.Subscript) and unparse(s.tnode.value) == msk.id and s.loops == a.loops]
+        if not (len(marks) == 1 and marks[0].value == "True" and marks[0].target == ex("M[%s]" % vert, M=msk.id)):
+            return False, "the division mask does not mark exactly the vertices that received a contribution"
+    return True, ""
 
 
 ELEM_TABLES = {"integration_elements", "normals", "volumes", "jacobians", "jac_inv_trans", "diameters", "centroids", "domain_indices", "local2global", "local_multipliers", "normal_multipliers"}
